@@ -8,7 +8,7 @@ SPEC = dict(
         dict(name='roster', harness='h.cpp', tus=TUS, models=['qt_core.c', 'qt_list.c', 'qt_dom.c', 'models.c'], shadow_task=True,
              instances=[I(n) for n in ['push_unauth_n1', 'push_unauth_n2', 'push_auth_nofrom_n2', 'push_auth_from_n2', 'push_auth_from_n1', 'push_auth_from_n0', 'connected', 'connected_result_new', 'connected_result_resumed', 'connected_error', 'disconnected', 'presence']]),
         dict(name='dbg', harness='h.cpp', tus=TUS, models=['qt_core.c', 'qt_list.c', 'qt_dom.c', 'models.c'], shadow_task=True, cxxdefs={'C12_DEBUG': 1},
-             instances=[I('dbg1', tiers=('thorough',)), I('dbg2', tiers=('thorough',)), I('dbg3', tiers=('thorough',), timeout_s=100), I('dbg4', tiers=('thorough',), timeout_s=100)]),
+             instances=[I('dbg1', tiers=('thorough',)), I('dbg2', tiers=('thorough',)), I('dbg6', tiers=('thorough',), timeout_s=40), I('dbg3', tiers=('thorough',), timeout_s=100), I('dbg4', tiers=('thorough',), timeout_s=100)]),
     ],
     bounds=[], assumptions=[], outside=[],
 )
